@@ -1,6 +1,5 @@
 package verifsim
 
-func genMaintenance(r *rng, i int) *Spec  { return genSmoke(r) }
 
 
 func (s *Sim) pilotCall(owner, key string) {}
